@@ -4,6 +4,7 @@ from __future__ import annotations
 
 from typing import TYPE_CHECKING
 
+import numpy as np
 from scipy.linalg import lapack
 
 if TYPE_CHECKING:
@@ -27,6 +28,11 @@ def residual_variable_projection(
     tuple[ArrayLike, ArrayLike]
         The clps and the residual.
     """
+    if matrix.shape[1] == 0:
+        # No conditionally linear parameters (e.g. all clps are constrained to zero at this
+        # index), the residual is the data (same as ``residual_nnls``).
+        return np.zeros(0, dtype=np.float64), np.array(data, dtype=np.float64)
+
     # TODO: Reference Kaufman paper
 
     # Kaufman Q2 step 3
